@@ -141,7 +141,7 @@ func isExternalRef(ref string, parentIsExternal bool) bool {
 }
 
 func (doc *T) addSchemaToSpec(s *SchemaRef, refNameResolver RefNameResolver, parentIsExternal bool) bool {
-	if s == nil || !isExternalRef(s.Ref, parentIsExternal) {
+	if s == nil || s.Value == nil || !isExternalRef(s.Ref, parentIsExternal) {
 		return false
 	}
 
@@ -165,7 +165,7 @@ func (doc *T) addSchemaToSpec(s *SchemaRef, refNameResolver RefNameResolver, par
 }
 
 func (doc *T) addParameterToSpec(p *ParameterRef, refNameResolver RefNameResolver, parentIsExternal bool) bool {
-	if p == nil || !isExternalRef(p.Ref, parentIsExternal) {
+	if p == nil || p.Value == nil || !isExternalRef(p.Ref, parentIsExternal) {
 		return false
 	}
 	name := refNameResolver(doc, p)
@@ -188,7 +188,7 @@ func (doc *T) addParameterToSpec(p *ParameterRef, refNameResolver RefNameResolve
 }
 
 func (doc *T) addHeaderToSpec(h *HeaderRef, refNameResolver RefNameResolver, parentIsExternal bool) bool {
-	if h == nil || !isExternalRef(h.Ref, parentIsExternal) {
+	if h == nil || h.Value == nil || !isExternalRef(h.Ref, parentIsExternal) {
 		return false
 	}
 	name := refNameResolver(doc, h)
@@ -211,7 +211,7 @@ func (doc *T) addHeaderToSpec(h *HeaderRef, refNameResolver RefNameResolver, par
 }
 
 func (doc *T) addRequestBodyToSpec(r *RequestBodyRef, refNameResolver RefNameResolver, parentIsExternal bool) bool {
-	if r == nil || !isExternalRef(r.Ref, parentIsExternal) {
+	if r == nil || r.Value == nil || !isExternalRef(r.Ref, parentIsExternal) {
 		return false
 	}
 	name := refNameResolver(doc, r)
@@ -234,7 +234,7 @@ func (doc *T) addRequestBodyToSpec(r *RequestBodyRef, refNameResolver RefNameRes
 }
 
 func (doc *T) addResponseToSpec(r *ResponseRef, refNameResolver RefNameResolver, parentIsExternal bool) bool {
-	if r == nil || !isExternalRef(r.Ref, parentIsExternal) {
+	if r == nil || r.Value == nil || !isExternalRef(r.Ref, parentIsExternal) {
 		return false
 	}
 	name := refNameResolver(doc, r)
@@ -257,7 +257,7 @@ func (doc *T) addResponseToSpec(r *ResponseRef, refNameResolver RefNameResolver,
 }
 
 func (doc *T) addSecuritySchemeToSpec(ss *SecuritySchemeRef, refNameResolver RefNameResolver, parentIsExternal bool) {
-	if ss == nil || !isExternalRef(ss.Ref, parentIsExternal) {
+	if ss == nil || ss.Value == nil || !isExternalRef(ss.Ref, parentIsExternal) {
 		return
 	}
 	name := refNameResolver(doc, ss)
@@ -280,7 +280,7 @@ func (doc *T) addSecuritySchemeToSpec(ss *SecuritySchemeRef, refNameResolver Ref
 }
 
 func (doc *T) addExampleToSpec(e *ExampleRef, refNameResolver RefNameResolver, parentIsExternal bool) {
-	if e == nil || !isExternalRef(e.Ref, parentIsExternal) {
+	if e == nil || e.Value == nil || !isExternalRef(e.Ref, parentIsExternal) {
 		return
 	}
 	name := refNameResolver(doc, e)
@@ -303,7 +303,7 @@ func (doc *T) addExampleToSpec(e *ExampleRef, refNameResolver RefNameResolver, p
 }
 
 func (doc *T) addLinkToSpec(l *LinkRef, refNameResolver RefNameResolver, parentIsExternal bool) {
-	if l == nil || !isExternalRef(l.Ref, parentIsExternal) {
+	if l == nil || l.Value == nil || !isExternalRef(l.Ref, parentIsExternal) {
 		return
 	}
 	name := refNameResolver(doc, l)
@@ -326,7 +326,7 @@ func (doc *T) addLinkToSpec(l *LinkRef, refNameResolver RefNameResolver, parentI
 }
 
 func (doc *T) addCallbackToSpec(c *CallbackRef, refNameResolver RefNameResolver, parentIsExternal bool) bool {
-	if c == nil || !isExternalRef(c.Ref, parentIsExternal) {
+	if c == nil || c.Value == nil || !isExternalRef(c.Ref, parentIsExternal) {
 		return false
 	}
 	name := refNameResolver(doc, c)
@@ -517,7 +517,7 @@ func (doc *T) InternalizeRefs(ctx context.Context, refNameResolver func(*T, Comp
 		for _, name := range componentNames(components.Schemas) {
 			schema := components.Schemas[name]
 			isExternal := doc.addSchemaToSpec(schema, refNameResolver, false)
-			if schema != nil {
+			if schema != nil && schema.Value != nil {
 				schema.Ref = "" // always dereference the top level
 				doc.derefSchema(schema.Value, refNameResolver, isExternal)
 			}
